@@ -487,8 +487,17 @@ func (e *boundsEngine) modWitness(fn *ssa.Function, d string) string {
 		for _, b := range f.Blocks {
 			for _, in := range b.Instrs {
 				if st, ok := in.(*ssa.Store); ok {
-					if fa, ok := st.Addr.(*ssa.FieldAddr); ok && fieldKey(fa.X, fa.Field) == d {
-						direct = true
+					if fa, ok := st.Addr.(*ssa.FieldAddr); ok && rootAlloc(fa) == nil {
+						for a := ssa.Value(fa); ; {
+							f2, ok := a.(*ssa.FieldAddr)
+							if !ok {
+								break
+							}
+							if fieldKey(f2.X, f2.Field) == d {
+								direct = true
+							}
+							a = f2.X
+						}
 					}
 				}
 			}
